@@ -5,6 +5,7 @@ from rules import limits as LM
 from rules import payload as O
 from rules import chk as K
 from rules import misc as M
+from rules import durability as D
 
 
 def run(ctx):
@@ -21,6 +22,7 @@ def run(ctx):
     K.chk7_scalar_implementations(ctx)
     L.cnd2_every_wakeup_condition_notifies(ctx)
     M.ord13_top_n_limit_zero(ctx)
+    D.erv4_no_error_discarded(ctx)
     return ctx.finish(
         'Static analysis of compiler MIR: deadlock-freedom clauses (acyclic lock-order graph over '
         'all lock identities, no guard across blocking calls except tabled sites, paired condvar '
